@@ -65,6 +65,9 @@ func c12ApiFacts(repo string, w *strings.Builder) error {
 	}
 	var ctors []ctor
 	var factories []string
+	var cacheCalls []string
+	minters := map[string]bool{}
+	stringsToKindsUsesFactory := false
 	type jf struct{ st, field, tag string }
 	var jfs []jf
 	for _, f := range files {
@@ -94,6 +97,27 @@ func c12ApiFacts(repo string, w *strings.Builder) error {
 				if x.Body == nil {
 					continue
 				}
+				// kind interning: which sync.Map methods StringKind calls on kindCache, who mints stringKind values
+				ast.Inspect(x.Body, func(n ast.Node) bool {
+					c, ok := n.(*ast.CallExpr)
+					if !ok {
+						return true
+					}
+					if sel, ok := c.Fun.(*ast.SelectorExpr); ok {
+						if id, ok := sel.X.(*ast.Ident); ok && id.Name == "kindCache" && x.Name.Name == "StringKind" && x.Recv == nil {
+							cacheCalls = append(cacheCalls, sel.Sel.Name)
+						}
+					}
+					if id, ok := c.Fun.(*ast.Ident); ok {
+						if id.Name == "stringKind" {
+							minters[x.Name.Name] = true
+						}
+						if id.Name == "StringKind" && x.Name.Name == "StringsToKinds" {
+							stringsToKindsUsesFactory = true
+						}
+					}
+					return true
+				})
 				fname := x.Name.Name
 				if r := recvType(x); r != "" {
 					fname = r + "." + fname
@@ -222,6 +246,11 @@ func c12ApiFacts(repo string, w *strings.Builder) error {
 	sort.Strings(factories)
 	fmt.Fprintln(w, "/-- package-level functions returning a Properties / Node / Relationship -/")
 	fmt.Fprintf(w, "def factories : List String := %s\n", leanStrList(factories))
+	fmt.Fprintln(w, "/-- the sync.Map methods graph.StringKind calls on kindCache, in source order -/")
+	fmt.Fprintf(w, "def stringKindCacheCalls : List String := %s\n", leanStrList(cacheCalls))
+	fmt.Fprintln(w, "/-- the functions of package graph that convert a string to the unexported stringKind type (mint a handle) -/")
+	fmt.Fprintf(w, "def stringKindMinters : List String := %s\n", leanStrList(sortedKeys(minters)))
+	fmt.Fprintf(w, "def stringsToKindsUsesFactory : Bool := %v\n", stringsToKindsUsesFactory)
 	fmt.Fprintln(w, "/-- (struct, field, json tag) -/")
 	fmt.Fprintln(w, "def jsonFields : List (String × String × String) := [")
 	for i, j := range jfs {
